@@ -426,7 +426,9 @@ class PossibleFragmentSpreadsChecker(ValidationVisitor):
     def enter_fragment_spread(self, node):
         name = node.name.value
         frag_type = self._fragment_types.get(name, None)
-        parent_type = self.type_info.type
+        # Type of the enclosing selection set (the type of the enclosing field
+        # may be wrapped in lists or non-nulls).
+        parent_type = self.type_info.parent_type
 
         if (
             isinstance(frag_type, GraphQLCompositeType)
